@@ -23,7 +23,7 @@ RULE = ('Arithmetic tuples (sample_rate x num_branches x num_taps x num_chans x 
         'library default configuration; distinct by case hash.')
 ASSUMPTIONS = ['1e-9 relative boundary rule from the property', 'unit drift rate compared in magnitude',
                'sample counter installed by wrapping antenna.get_samples inside the harness']
-REQUIRED_CLASSES = ['recorded', 'exact_multiple', 'array', 'single', 'bits=4', 'bits=8']
+REQUIRED_CLASSES = ['recorded', 'recorded_multi_file', 'exact_multiple', 'array', 'single', 'bits=4', 'bits=8']
 
 RATES = [3e9, 2.048e9, 187.5e6, 1e6, 3.3e9]
 BRANCHES = [8, 64, 1024, 4096]
@@ -49,7 +49,7 @@ def strategy(tier):
         'durs': st.lists(dur_strategy(), min_size=1, max_size=4),
         'fftlength': st.sampled_from([1, 8, 256, 1024, 1048576]), 'int_factor': st.integers(1, 60),
         'tchans_per_block': st.integers(1, 64),
-        'record': st.booleans(), 'nsb': st.integers(1, 6),
+        'record': st.booleans(), 'nsb': st.integers(1, 6), 'bpf': st.sampled_from([1, 2, 3, 128]),
     })
 
 
@@ -82,7 +82,7 @@ def make_backend(c):
     be = BE.RawVoltageBackend(src, digitizer=Q.RealQuantizer(num_bits=8),
                               filterbank=P.PolyphaseFilterbank(num_taps=c['taps'], num_branches=B),
                               requantizer=Q.ComplexQuantizer(num_bits=c['nbits']), start_chan=0, num_chans=nch,
-                              block_size=block_size, blocks_per_file=128, num_subblocks=c['nsb'])
+                              block_size=block_size, blocks_per_file=c.get('bpf', 128), num_subblocks=c['nsb'])
     return src, be, dict(bps=bps, spb=spb, block_size=block_size, nch=nch, B=B)
 
 
@@ -180,6 +180,8 @@ def run_case(case, ctx):
     nb = c['nblocks']
     if c['record'] and small:
         obs.cls('recorded')
+        if nb > c.get('bpf', 128):
+            obs.cls('recorded_multi_file')
         counter = {'n': 0, 'calls': 0}
         orig = src.get_samples
 
